@@ -422,6 +422,39 @@ C02_THEMES = [
           body=S_('DROP', 'DUP', 'CAR', 'CDR', 'SOME', 'PAIR', 'UNPAIR', 'SWAP', 'CONS') + [g_push(('int', [1]))]),
 ]
 
+# C02: UPDATE n replacing a component (odd n) or a right sub-comb (even n) by a value whose type has the SAME outer
+# constructor as the replaced part but different arguments; the static type of the result must follow the new value
+KIND_AB = [('option nat', 'option string'), ('list nat', 'list bool'), ('set nat', 'set string'), ('map string nat', 'map string bool'),
+           ('or int nat', 'or string nat'), ('pair int nat', 'pair string bool'), ('lambda int int', 'lambda int string')]
+
+
+def _comb(parts):
+    return 'pair ' + ' '.join(p if ' ' not in p else f'({p})' for p in parts)
+
+
+UPDATE_STACKS = []
+for _a, _b in KIND_AB:
+    for _n in (2, 3, 4):
+        UPDATE_STACKS.append([_b, _comb([_a] * _n)])                       # same outer constructor as every component
+        UPDATE_STACKS.append(['pair string bool', _comb([_a] * _n)])        # same outer constructor (pair) as every right sub-comb
+    UPDATE_STACKS.append([_b, _comb([a for a, _ in KIND_AB][:4])])
+    UPDATE_STACKS.append([_b, _comb([a for a, _ in KIND_AB][3:])])
+UPDATE_STACKS.append(['pair (option string) (list bool)', 'pair int (option nat) (list nat)'])
+UPDATE_STACKS.append(['pair string (pair bool unit)', 'pair (pair int nat) (pair int (pair nat bytes))'])
+
+C02_THEMES += [
+    Theme('update-comb', UPDATE_STACKS,
+          [g_num('UPDATE', 0), g_num('GET', 0), g_num('UNPAIR', 2)] + S_('SWAP', 'DUP', 'PAIR', 'CAR', 'CDR', 'SOME') + N_('DUP', 2),
+          body=S_('DROP', 'DUP')),
+    Theme('map-update', [['string', 'option (option nat)', 'map string (option nat)'], ['string', 'option (list nat)', 'map string (list nat)'],
+                         ['int', 'option (pair int nat)', 'map int (pair int nat)'], ['string', 'option (or int nat)', 'map string (or int nat)'],
+                         ['nat', 'option (map string nat)', 'map nat (map string nat)'], ['string', 'option (set nat)', 'map string (set nat)'],
+                         ['pair int int', 'option (lambda int int)', 'map (pair int int) (lambda int int)']],
+          S_('UPDATE', 'GET_AND_UPDATE', 'GET', 'MEM', 'SWAP', 'DUP', 'PAIR', 'SOME', 'SIZE') + N_('DUP', 2, 3) + N_('DIG', 2) + N_('DUG', 2)
+          + [g_if('IF_NONE'), g_iter, g_map],
+          body=S_('DROP', 'DUP', 'CAR', 'CDR', 'SOME', 'SWAP')),
+]
+
 # C17: pair / option / or / collection manipulation on comb types (annotations are added by bounded/C17_annot.py)
 C17_THEMES = [
     Theme('combs', [['pair int nat string', 'int'], ['int', 'pair int nat string bool'], ['pair (pair int nat) string', 'int'],
